@@ -38,8 +38,24 @@ def programs(ctx, quick):
                 rt.append(fp)
     rt.sort()
     rng = ctx.rng()
-    rng.shuffle(rt)
-    progs += rt[: (10 if quick else 400)]
+    if not quick:
+        rng.shuffle(rt)
+        return progs + rt[:400]
+    # quick tier: every program of test/rt/ref (references to every value shape, incl. zero-sized ones: the shapes whose
+    # stack-map entries are special-cased in the code generators), and one seeded pick from every other directory of
+    # test/rt (33 directories: a stratified sample instead of ten programs drawn from the whole corpus)
+    by_dir = {}
+    for fp in rt:
+        by_dir.setdefault(os.path.relpath(fp, os.path.join(C.REPO, "test", "rt")).split(os.sep)[0], []).append(fp)
+    others = [d for d in sorted(by_dir) if d not in ("ref", "bench", "whiteboard")]
+    rng.shuffle(others)
+    for d in sorted(others[:12]):
+        progs.append(rng.choice(by_dir[d]))
+    # (path, variants): the reference programs go through the baseline generator (whose stack maps are built per function
+    # from the register types), a third of them also through the optimizing one
+    refs = sorted(by_dir.get("ref", []))
+    both = set(rng.sample(refs, min(9, len(refs))))
+    progs += [(fp, ("cannon-x64", "boots-x64") if fp in both else ("cannon-x64",)) for fp in refs]
     return progs
 
 
@@ -65,6 +81,7 @@ def corruptions(lines):
         i = idx_gcp[len(idx_gcp) // 2]
         out.append(("positive-slot", lines[:i] + [re.sub(r" o -(\d+)", r" o \1", lines[i], count=1)] + lines[i + 1:]))
         out.append(("unaligned-slot", lines[:i] + [re.sub(r" o -(\d+)", lambda m: " o -%d" % (int(m.group(1)) + 4), lines[i], count=1)] + lines[i + 1:]))
+        out.append(("slot-named-twice", lines[:i] + [re.sub(r" o (-\d+)", r" o \1 \1", lines[i], count=1)] + lines[i + 1:]))
         out.append(("slot-below-frame", lines[:i] + [re.sub(r" o -(\d+)", lambda m: " o -%d" % (int(m.group(1)) + 8 * 100000), lines[i], count=1)] + lines[i + 1:]))
     if len(idx_fn) >= 2:
         i = idx_fn[1]
@@ -96,7 +113,12 @@ def run(ctx):
         variants += [("cannon-x64-copy", ["--cannon", "--gc", "copy"], "x64"), ("boots-x64-sweep", ["--gc", "sweep"], "x64"),
                      ("boots-arm64-copy", ["--target", "arm64", "--gc", "copy"], "arm64")]
     progs = programs(ctx, quick)
-    jobs = [(p, v) for p in progs for v in variants]
+    jobs = []
+    for p in progs:
+        only = None
+        if isinstance(p, tuple):
+            p, only = p
+        jobs += [(p, v) for v in variants if only is None or v[0] in only]
     stats = dict(artifacts=0, ok=0, rejected=0, compile_failed=0, fns=0, mapped_calls=0, gcpoints=0, slots=0,
                  selftest=0, selftest_rejected=0, samples=[], per_variant={})
     first_art = {}
